@@ -998,6 +998,9 @@ class Gen(object):
             op['route'] = 'np'
         if f in ('sum', 'cumsum', 'max', 'min', 'sort', 'prod', 'cumprod'):
             op['axis'] = r.choice([None, 0, nd - 1]) if f != 'sort' else r.choice([0, -1])
+        if f in ('max', 'min') and r.random() < 0.2:
+            lo_, hi_ = Q.bounds(bool(o.signed), min(o.n_word, 60))
+            op['initial'] = r.choice([hi_ + r.randint(1, 1000), lo_ - r.randint(1, 1000), r.randint(lo_, hi_), 0])
         if f == 'dot':
             sh = np.asarray(o.val).shape
             kb, ib = self.pick(lambda q: self.is_real(q) and np.asarray(q.val).ndim >= 1 and
@@ -1190,6 +1193,16 @@ class Gen(object):
         so = self.w.slots[isrc].obj
         ssh = tuple(np.asarray(so.val).shape)
         op = {'op': 'setitem_from', 'slot': k, 'src': self.cands().index(isrc)}
+        if r.random() < 0.3:
+            op['via'] = r.choice(['equal', 'equal', 'set_val'])     # dst.equal(src, index=i) / dst.set_val(src, index=i)
+        if ssh == sh and sh and r.random() < 0.5:
+            # the whole source into the whole destination through an index that selects every element in
+            # ANOTHER order (reversed, rotated, permuted): dst[::-1] = src, dst[[2, 0, 1]] = src
+            n0 = sh[0]
+            perm = list(range(n0))
+            r.shuffle(perm)
+            op['index'] = r.choice([['sl', None, None, -1], ['fx', perm], ['ia', perm[1:] + perm[:1]]])
+            return op
         if 'F2' in self.p.faults and r.random() < max(self.p.fault_rate, 0.1):
             # a write that must be rejected after its input was looked at: index out of range, or a
             # source that cannot be broadcast into the region
